@@ -91,11 +91,81 @@ example : ¬ ArithNoUb cfgPinned := fun h => by
   have := (no_ub_iff_guarded cfgPinned).1 h
   exact absurd this (by decide)
 
+/-! ## ordering of 64-bit integers against doubles and against each other
+
+`cmpIntDbl x y` is the exact three-way comparison of the integer `x` with the double `y = ± m * 2^e`, computed in
+integers after clearing the power of two (`cmpIntDbl_is_exact`); `rnd53` is the int -> double rounding the C performs. -/
+
+theorem cmpIntDbl_is_exact (n : Int) (neg : Bool) (m : Nat) (e : Int) :
+    cmpIntDbl n (.fin neg m e) =
+      if 0 ≤ e then cmp3 n (smant neg m * 2 ^ e.toNat) else cmp3 (n * 2 ^ (-e).toNat) (smant neg m) :=
+  cmpIntDbl_fin n neg m e
+
+/-- int -> double rounding: exact below 2^53 in magnitude, never crosses ±2^53 above (all the proof needs) -/
+theorem rnd53_exact_small_monotone_edge (x : Int) :
+    (-two53 < x ∧ x < two53 → rnd53 x = x) ∧ (two53 ≤ x → two53 ≤ rnd53 x) ∧ (x ≤ -two53 → rnd53 x ≤ -two53) :=
+  ⟨rnd53_small x, (rnd53_big x).1, (rnd53_big x).2⟩
+
+/-- for every configuration with an inclusive upper and an exclusive lower edge test, compare_int64_double is the exact
+    comparison for all int64 x and all non-NaN doubles; likewise unsigned -/
+theorem compare_mixed_correct_of_inclusive (c : Cfg) (x : Int) (b : Nat) (hy : decode b ≠ .nan) :
+    (c.cmpSUpperIncl = true → c.cmpSLowerIncl = false → Kind.s64.inRange x →
+        compareInt64Double c x (decode b) = .ok (cmpIntDbl x (decode b))) ∧
+    (c.cmpUUpperIncl = true → Kind.u64.inRange x → compareUint64Double c x (decode b) = .ok (cmpIntDbl x (decode b))) :=
+  ⟨fun hu hl hx => compareInt64Double_correct c hu hl x hx _ hy (decode_wf b),
+   fun hu hx => compareUint64Double_partial c x hx _ hy (decode_wf b) (Or.inl hu)⟩
+
+/-- what holds on every tree (the pinned one included): exact for every double other than 2^63 (signed) / 2^64 (unsigned) -/
+theorem compare_mixed_partial (c : Cfg) (x : Int) (b : Nat) (hy : decode b ≠ .nan) :
+    (c.cmpSLowerIncl = false → Kind.s64.inRange x → cmpIntDbl two63 (decode b) ≠ 0 →
+        compareInt64Double c x (decode b) = .ok (cmpIntDbl x (decode b))) ∧
+    (Kind.u64.inRange x → cmpIntDbl two64 (decode b) ≠ 0 → compareUint64Double c x (decode b) = .ok (cmpIntDbl x (decode b))) :=
+  ⟨fun hl hx h => compareInt64Double_partial c hl x hx _ hy (decode_wf b) (Or.inr h),
+   fun hx h => compareUint64Double_partial c x hx _ hy (decode_wf b) (Or.inr h)⟩
+
+/-- the missing part on the pinned tree: `(compare (int/s64 5) 9223372036854775808)` casts 2^63 to int64_t (undefined;
+    x86-64 yields INT64_MIN, so the answer is 1 instead of -1); same for u64 and 2^64 -/
+theorem compare_wrong_on_pinned :
+    compareInt64Double cfgPinned 5 (decode 0x43e0000000000000) = .ub ∧ cmpIntDbl 5 (decode 0x43e0000000000000) = -1 ∧
+    compareUint64Double cfgPinned 5 (decode 0x43f0000000000000) = .ub ∧ cmpIntDbl 5 (decode 0x43f0000000000000) = -1 :=
+  compare_ub_on_pinned
+
+/-- s64 against u64, and same-kind pairs: ordered by mathematical value -/
+theorem compare_ints_correct (c : Cfg) (x y : Int) (hx : Kind.s64.inRange x) (hy : Kind.u64.inRange y) :
+    compareMethod c .s64 x (.u64 y) = .ok (some (cmp3 x y)) ∧ compareMethod c .u64 y (.s64 x) = .ok (some (cmp3 y x)) ∧
+    compareMethod c .s64 x (.s64 y) = .ok (some (cmp3 x y)) ∧ compareMethod c .u64 x (.u64 y) = .ok (some (cmp3 x y)) :=
+  compareMethod_ints c x y hx hy
+
+/-- number operands: accepted exactly when the double is an integer of magnitude ≤ 2^53 (and ≥ 0 for u64), and then taken
+    at its exact value (`janet_checkint64range` / `janet_checkuint64range`; bounds regenerated from janet.h) -/
+theorem unwrap_range (d : Dbl) (n : Int) :
+    (numToS64 d = some n ↔ d.toInt? = some n ∧ intMinDouble ≤ n ∧ n ≤ intMaxDouble) ∧
+    (numToU64 d = some n ↔ d.toInt? = some n ∧ 0 ≤ n ∧ n ≤ intMaxDouble) := by
+  unfold numToS64 numToU64
+  constructor <;> (cases h : d.toInt? <;> simp)
+  · constructor
+    · rintro ⟨h1, h2⟩; subst h2; exact ⟨rfl, h1⟩
+    · rintro ⟨h1, h2⟩; subst h1; exact ⟨h2, rfl⟩
+  · constructor
+    · rintro ⟨h1, h2⟩; subst h2; exact ⟨rfl, h1⟩
+    · rintro ⟨h1, h2⟩; subst h1; exact ⟨h2, rfl⟩
+
 /-! ## current tree (obligations over the regenerated `Gen/Int64.lean`) -/
 
 /-- ★ on the current source no 64-bit integer method performs an undefined C operation.
     Does not check on a tree where `div`, `rdiv`, `mod`, `rmod`, `/`, `r/`, `%` or `r%` lacks the INT64_MIN / -1 test. -/
 theorem no_ub : ArithNoUb cfgGen := (no_ub_iff_guarded cfgGen).2 (by decide)
+
+/-- ★ on the current source `compare_int64_double x y` is the exact comparison of x with y, for every int64 x and every
+    non-NaN double y (given by its bit pattern).  Does not check on a tree whose edge tests let 2^63 reach the cast. -/
+theorem compare_mixed_correct (x : Int) (hx : Kind.s64.inRange x) (b : Nat) (hy : decode b ≠ .nan) :
+    compareInt64Double cfgGen x (decode b) = .ok (cmpIntDbl x (decode b)) :=
+  (compare_mixed_correct_of_inclusive cfgGen x b hy).1 (by decide) (by decide) hx
+
+/-- ★ same for `compare_uint64_double`, every uint64 x -/
+theorem compare_mixed_correct_unsigned (x : Int) (hx : Kind.u64.inRange x) (b : Nat) (hy : decode b ≠ .nan) :
+    compareUint64Double cfgGen x (decode b) = .ok (cmpIntDbl x (decode b)) :=
+  (compare_mixed_correct_of_inclusive cfgGen x b hy).2 (by decide) hx
 
 /-- the method tables of the current source: every binary operator has its reversed variant bound to the function with
     swapped operands (non-commutative operators) or to the same function (commutative ones); no reversed shift methods;
